@@ -2338,7 +2338,10 @@ func (app *App) stopActiveNodeOptimization(oldMaster string, activeNodes []strin
 
 	var nodes []*mysql.Node
 	for _, hostname := range activeNodes {
-		nodes = append(nodes, app.cluster.Get(hostname))
+		// the active list comes from the coordination service and may name a host that is not registered any more
+		if node := app.cluster.Get(hostname); node != nil {
+			nodes = append(nodes, node)
+		}
 	}
 
 	return app.optController.DisableAll(
